@@ -13,7 +13,7 @@ import numpy as np
 from ..core import import_library
 from ..gen import engines as E
 from ..gen import terms as G
-from ..probe import Probe, Reach
+from ..probe import Probe, Reach, plain_function
 from ..ref import norms as N
 from ..ref import wiring as W
 
@@ -25,6 +25,7 @@ class AntecedentMonitor:
         self.ctx, self.fl = ctx, fl
         self.oracle = W.Oracle(fl)
         self.expected = {}  # antecedent text -> generator tree (parser format)
+        self.weights = {}  # antecedent text -> weight the workload gave the rule (ground truth; else the rule's own)
 
     def install(self, probe):
         fl = self.fl
@@ -98,7 +99,7 @@ class AntecedentMonitor:
         except (AttributeError, KeyError, ValueError) as ex:
             ctx.hit(f"out_of_domain:oracle cannot evaluate ({type(ex).__name__})")
             return
-        want = rule.weight * value
+        want = self.weights.get(text, rule.weight) * value
         ctx.hit(f"compare:degree ({how})")
         if not W.agree(ctx, result, want, "degree") or not W.agree(ctx, rule.activation_degree, want, "degree"):
             ctx.violation("activation degree is not weight x value of the antecedent read with the documented grammar", {"rule": rule.text, "conjunction": type(conj).__name__, "disjunction": type(disj).__name__, "values": {n: v.value for n, v in variables.items()}}, want, result)
@@ -194,7 +195,7 @@ def run(ctx):
         "right associativity, hedges in listed order) gives a different number on the observed row - only those cases can discriminate"
     )
     ctx.assumptions += ["leaves (membership, hedge, norm) are the library's own (C03/C04/C05)", "bit-exact comparison", "`any` is generated last in its hedge list and never after `not`"]
-    funcs = {"Antecedent.load": fl.Antecedent.load, "Antecedent.activation_degree": fl.Antecedent.activation_degree, "Rule.activate_with": fl.Rule.activate_with, "Function.infix_to_postfix": fl.Function.__dict__["infix_to_postfix"].__func__}
+    funcs = {"Antecedent.load": fl.Antecedent.load, "Antecedent.activation_degree": fl.Antecedent.activation_degree, "Rule.activate_with": fl.Rule.activate_with, "Function.infix_to_postfix": plain_function(fl.Function, "infix_to_postfix")}
     pairs = list(itertools.product(N.TNORMS, N.SNORMS))
     with Reach(funcs) as reach, Probe() as probe:
         mon = AntecedentMonitor(ctx, fl)
@@ -211,10 +212,19 @@ def run(ctx):
             w = E.gen_weight(rnd, 3)
             style = i % 4
             text = E.tree_text(rnd, tree, redundant=(0.0, 0.3, 0.0, 0.5)[style], tight=(0.0, 0.0, 1.0, 0.5)[style])
-            mon.expected[" ".join(text.split())] = W.from_spec(tree)
+            key = " ".join(text.split())
+            mon.expected[key] = W.from_spec(tree)
+            mon.weights[key] = w
             rule_text = f"if {text} then out0 is {spec_out['terms'][0]['name']}{E.weight_text(w, 3)}"
             try:
-                rule = fl.Rule.create(rule_text, engine)
+                if i % 2:
+                    rule = fl.Rule.create(rule_text, engine)
+                else:
+                    # a rule object that already held another (weighted) text is given this one: nothing of the old text may survive
+                    rule = fl.Rule.create(f"if {E.prop_text(E.gen_prop(rnd, spec_inputs[0], allow_any=False))} then out0 is {spec_out['terms'][0]['name']} with 0.250", engine)
+                    rule.text = rule_text
+                    rule.load(engine)
+                    ctx.hit("event:rule object reused for another text")
             except Exception:
                 continue  # judged by the monitor on Antecedent.load
             # self-check of the oracle's own parser against the generator (so the fall-back reading is trustworthy)
@@ -233,12 +243,13 @@ def run(ctx):
                     rule.activate_with(conj, disj)
                 except Exception:
                     pass
-            mon.expected.pop(" ".join(text.split()), None)
+            mon.expected.pop(key, None)
+            mon.weights.pop(key, None)
             if i < 3:
                 ctx.sample("antecedent", {"text": rule_text, "postfix": E.tree_postfix(tree), "conjunction": tname, "disjunction": sname, "row": rows[0], "degree": rule.activation_degree})
         probe.report(ctx)
         reach.report(ctx)
-    ctx.require("hook:Rule.activate_with", "hook:Antecedent.load", "compare:degree (generator tree)", "compare:postfix (generator tree)", "discriminates:swapped precedence", "discriminates:right associativity", "discriminates:hedge order", "piece:any", "piece:disabled variable", "piece:output variable proposition", "piece:weight", "shape:mixes and/or")
+    ctx.require("hook:Rule.activate_with", "hook:Antecedent.load", "compare:degree (generator tree)", "compare:postfix (generator tree)", "discriminates:swapped precedence", "discriminates:right associativity", "discriminates:hedge order", "piece:any", "piece:disabled variable", "piece:output variable proposition", "piece:weight", "shape:mixes and/or", "event:rule object reused for another text")
 
 
 def passive(ctx, fl, probe):
